@@ -41,12 +41,16 @@ K = {
 }
 
 
-def raster(rid, dtype, backend, shape=(6, 7), nan=True):
+def raster(rid, dtype, backend, shape=(6, 7), nan=True, sparse=False):
     import xarray as xr
     h, w = shape
     i, j = np.mgrid[0:h, 0:w]
     a = ((i * 7 + j * 3 + rid * 5) % 11 - 2).astype("float64")
-    if dtype.startswith("float"):
+    if sparse:   # few non-zero cells (values 3 and 5): proximity targets far apart
+        k = (i * 7 + j * 3 + rid * 5) % 29
+        a = np.where(k == 0, 3.0, np.where(k == 13, 5.0, 0.0))
+        nan = False
+    if dtype.startswith("float") and not sparse:
         a = a * 0.5
         if nan:
             a[rid % h, (rid * 3) % w] = np.nan
@@ -91,7 +95,7 @@ def exec_call(d):
                 kw["target_values"] = d["tv"]
             if d["md"] is not None:
                 kw["max_distance"] = d["md"]
-            out = getattr(X, d["fn"])(raster(d["rid"], dt, bk, nan=False), **kw)
+            out = getattr(X, d["fn"])(raster(d["rid"], dt, bk, shape=tuple(d.get("shape", (6, 7))), sparse=True), **kw)
         elif t == "focal_apply":
             func = _ufunc("wsum") if d["func"] == "u_wsum" else getattr(focal, "_calc_" + d["func"])
             out = focal.apply(raster(d["rid"], dt, bk), np.array(K[d["k"]], dtype="float64"), func)
@@ -390,66 +394,70 @@ BODIES = {"seq": body_seq, "threads": body_threads}
 
 # ---------------------------------------------------------------- strategies
 
-DT = st.sampled_from(["float64", "float32", "int32"])
-BK = st.sampled_from(["numpy", "numpy", "dask"])
-RID = st.integers(0, 2)
+DTS = ["float64", "float32", "int32"]
+BKS = ["numpy", "numpy", "dask"]
+
+# table-driven catalogue: family -> {field: candidate values}; a descriptor draws every field, a VARIANT re-draws one or two
+# fields of an existing descriptor (histories of calls that differ in a few parameters are what the property is about)
+FIELDS = {
+    "prox": {"fn": ["proximity", "allocation", "direction"], "tv": [None, [3], [3, 5], [0]], "md": [None, 2.0, 3.0, 6.0, 50.0],
+             "metric": ["EUCLIDEAN", "MANHATTAN"], "shape": [[6, 7], [3, 3], [9, 8]], "dtype": DTS, "backend": BKS},
+    "focal_apply": {"k": ["cross3", "row3", "asym5x3"], "func": ["mean", "max", "std", "u_wsum"], "dtype": DTS, "backend": BKS},
+    "focal_stats": {"k": ["cross3", "row3"], "stats": [None, ["max", "sum"], ["mean"]], "dtype": DTS, "backend": BKS},
+    "conv": {"k": ["w3", "w1x5", "cross3"], "dtype": DTS, "backend": BKS},
+    "focal_mean": {"passes": [1, 2], "excludes": [None, ["nan"], ["nan", 0.0]], "dtype": DTS, "backend": BKS},
+    "hotspots": {"k": ["cross3", "row3"], "dtype": DTS, "backend": BKS},
+    "zstats": {"stats": [None, ["mean", "max"], ["count", "sum", "std"]], "zone_ids": [None, [1, 2]], "dtype": ["float64", "int32"], "backend": BKS},
+    "crosstab": {"agg": ["count", "percentage"], "cat_ids": [None, [1, 3]], "backend": BKS},
+    "polygonize": {"dtype": ["int32", "int64", "uint32", "float32", "float64"], "conn": [4, 8]},
+    "classify": {"fn": ["quantile", "natural_breaks", "equal_interval", "binary", "reclassify"], "dtype": DTS, "backend": BKS,
+                 "values": [[1, 2], [0.5], [3, -1, 2]], "bins": [[0, 2, 4], [1, 9], [-1, 0, 1, 2, 3]], "k": [2, 3, 5]},
+    "terrain": {"fn": ["slope", "aspect", "curvature", "hillshade"], "dtype": DTS, "backend": BKS},
+    "astar": {"barriers": [None, [0], [0, 1]], "conn": [4, 8], "snap": [False, True], "dtype": DTS},
+    "perlin": {"seed": [0, 1, 2, 3], "freq": [[1, 1], [2, 3]], "shape": [[5, 6], [8, 4]], "dtype": ["float64", "float32"], "backend": BKS},
+    "gen_terrain": {"seed": [0, 1, 2], "zfactor": [4000, 10], "shape": [[5, 6], [8, 4]], "dtype": ["float64"], "backend": BKS},
+    "spectral": {"fn": ["ndvi", "evi", "savi", "nbr"], "p": [1.0, 0.5, 0.0], "dtype": ["float64", "float32", "int32", "uint8"], "backend": BKS},
+    "viewshed": {"x": [0.0, 1.5, 3.0], "y": [0.0, 2.0, 5.0], "obs": [0.0, 2.0]},
+    "regions": {"conn": [4, 8], "dtype": DTS},
+    "local": {"fn": ["cell_stats", "rank", "popularity", "greater_frequency"], "func": ["sum", "max", "std"], "dtype": ["float64", "int32"]},
+}
+
+
+def _normalise(d):
+    """drop fields a particular function does not use, so that equal calls have equal descriptors"""
+    d = dict(d)
+    if d["t"] == "classify":
+        fn = d["fn"]
+        if fn == "natural_breaks":
+            d["backend"] = "numpy"
+        for f, owners in (("values", ("binary",)), ("bins", ("reclassify",)), ("k", ("quantile", "natural_breaks", "equal_interval"))):
+            if fn not in owners:
+                d.pop(f, None)
+    if d["t"] == "spectral" and d["fn"] not in ("evi", "savi"):
+        d["p"] = None
+    if d["t"] == "local" and d["fn"] != "cell_stats":
+        d["func"] = None
+    return d
 
 
 @st.composite
 def descriptor(draw, families):
     t = draw(st.sampled_from(families))
-    d = {"t": t, "rid": draw(RID)}
-    if t == "prox":
-        d.update({"fn": draw(st.sampled_from(["proximity", "allocation", "direction"])), "tv": draw(st.sampled_from([None, [3], [3, 5], [0]])),
-                  "md": draw(st.sampled_from([None, 2.0, 3.5])), "metric": draw(st.sampled_from(["EUCLIDEAN", "MANHATTAN"])),
-                  "dtype": draw(DT), "backend": draw(BK)})
-    elif t == "focal_apply":
-        d.update({"k": draw(st.sampled_from(["cross3", "row3", "asym5x3"])), "func": draw(st.sampled_from(["mean", "max", "std", "u_wsum"])), "dtype": draw(DT), "backend": draw(BK)})
-    elif t == "focal_stats":
-        d.update({"k": draw(st.sampled_from(["cross3", "row3"])), "stats": draw(st.sampled_from([None, ["max", "sum"], ["mean"]])), "dtype": draw(DT), "backend": draw(BK)})
-    elif t == "conv":
-        d.update({"k": draw(st.sampled_from(["w3", "w1x5", "cross3"])), "dtype": draw(DT), "backend": draw(BK)})
-    elif t == "focal_mean":
-        d.update({"passes": draw(st.sampled_from([1, 2])), "excludes": draw(st.sampled_from([None, ["nan"], ["nan", 0.0]])), "dtype": draw(DT), "backend": draw(BK)})
-    elif t == "hotspots":
-        d.update({"k": draw(st.sampled_from(["cross3", "row3"])), "dtype": draw(DT), "backend": draw(BK)})
-    elif t == "zstats":
-        d.update({"stats": draw(st.sampled_from([None, ["mean", "max"], ["count", "sum", "std"]])), "zone_ids": draw(st.sampled_from([None, [1, 2]])),
-                  "dtype": draw(st.sampled_from(["float64", "int32"])), "backend": draw(BK)})
-    elif t == "crosstab":
-        d.update({"agg": draw(st.sampled_from(["count", "percentage"])), "cat_ids": draw(st.sampled_from([None, [1, 3]])), "backend": draw(BK)})
-    elif t == "polygonize":
-        d.update({"dtype": draw(st.sampled_from(["int32", "int64", "uint32", "float32", "float64"])), "conn": draw(st.sampled_from([4, 8]))})
-    elif t == "classify":
-        fn = draw(st.sampled_from(["quantile", "natural_breaks", "equal_interval", "binary", "reclassify"]))
-        d.update({"fn": fn, "dtype": draw(DT), "backend": "numpy" if fn == "natural_breaks" else draw(BK)})
-        if fn == "binary":
-            d["values"] = draw(st.sampled_from([[1, 2], [0.5], [3, -1, 2]]))
-        elif fn == "reclassify":
-            d["bins"] = draw(st.sampled_from([[0, 2, 4], [1, 9], [-1, 0, 1, 2, 3]]))
-        else:
-            d["k"] = draw(st.sampled_from([2, 3, 5]))
-    elif t == "terrain":
-        d.update({"fn": draw(st.sampled_from(["slope", "aspect", "curvature", "hillshade"])), "dtype": draw(DT), "backend": draw(BK)})
-    elif t == "astar":
-        d.update({"barriers": draw(st.sampled_from([None, [0], [0, 1]])), "conn": draw(st.sampled_from([4, 8])), "snap": draw(st.booleans()), "dtype": draw(DT)})
-    elif t == "perlin":
-        d.update({"seed": draw(st.integers(0, 3)), "freq": draw(st.sampled_from([[1, 1], [2, 3]])), "shape": draw(st.sampled_from([[5, 6], [8, 4]])),
-                  "dtype": draw(st.sampled_from(["float64", "float32"])), "backend": draw(BK)})
-    elif t == "gen_terrain":
-        d.update({"seed": draw(st.integers(0, 2)), "zfactor": draw(st.sampled_from([4000, 10])), "shape": draw(st.sampled_from([[5, 6], [8, 4]])),
-                  "dtype": "float64", "backend": draw(BK)})
-    elif t == "spectral":
-        fn = draw(st.sampled_from(["ndvi", "evi", "savi", "nbr"]))
-        d.update({"fn": fn, "p": draw(st.sampled_from([1.0, 0.5, 0.0])) if fn in ("evi", "savi") else None, "dtype": draw(st.sampled_from(["float64", "float32", "int32", "uint8"])), "backend": draw(BK)})
-    elif t == "viewshed":
-        d.update({"x": draw(st.sampled_from([0.0, 1.5, 3.0])), "y": draw(st.sampled_from([0.0, 2.0, 5.0])), "obs": draw(st.sampled_from([0.0, 2.0]))})
-    elif t == "regions":
-        d.update({"conn": draw(st.sampled_from([4, 8])), "dtype": draw(DT)})
-    elif t == "local":
-        fn = draw(st.sampled_from(["cell_stats", "rank", "popularity", "greater_frequency"]))
-        d.update({"fn": fn, "func": draw(st.sampled_from(["sum", "max", "std"])) if fn == "cell_stats" else None, "dtype": draw(st.sampled_from(["float64", "int32"]))})
-    return d
+    d = {"t": t, "rid": draw(st.integers(0, 2))}
+    for f, vals in FIELDS[t].items():
+        d[f] = draw(st.sampled_from(vals))
+    return _normalise(d)
+
+
+@st.composite
+def variant(draw, base):
+    d = dict(base)
+    fields = sorted(FIELDS[base["t"]]) + ["rid"]
+    for f in draw(st.lists(st.sampled_from(fields), min_size=1, max_size=2, unique=True)):
+        d[f] = draw(st.integers(0, 2)) if f == "rid" else draw(st.sampled_from(FIELDS[base["t"]][f]))
+    for f, vals in FIELDS[base["t"]].items():
+        d.setdefault(f, vals[0])
+    return _normalise(d)
 
 
 FAMILIES = [
@@ -460,7 +468,11 @@ FAMILIES = [
 
 @st.composite
 def sequences(draw, families, max_calls, max_distinct):
-    pool = [draw(descriptor(families)) for _ in range(draw(st.integers(2, max_distinct)))]
+    base = draw(descriptor(families))
+    pool = [base]
+    for _ in range(draw(st.integers(1, max_distinct - 1))):
+        # mostly variants of an existing descriptor (same function, one or two parameters changed), sometimes an unrelated call
+        pool.append(draw(variant(draw(st.sampled_from(pool)))) if draw(st.integers(0, 4)) else draw(descriptor(families)))
     steps = []
     n = draw(st.integers(3, max_calls))
     for _ in range(n):
@@ -478,6 +490,17 @@ def sequences(draw, families, max_calls, max_distinct):
     return {"sub": "seq", "steps": steps}
 
 
+def alt_prox_cases(fn):
+    """Designed histories for the closure-compiled proximity kernels: for every (metric, target_values) the same function is called on a small
+    raster with a limit beyond its diagonal, then on a larger raster without limit, with a small limit, and again without."""
+    for metric in ("EUCLIDEAN", "MANHATTAN"):
+        for tv in (None, [3]):
+            base = {"t": "prox", "fn": fn, "tv": tv, "metric": metric, "dtype": "float64", "backend": "numpy", "rid": 1}
+            seq = [dict(base, shape=[3, 3], md=3.0), dict(base, shape=[9, 8], md=None), dict(base, shape=[9, 8], md=2.0),
+                   dict(base, shape=[6, 7], md=6.0), dict(base, shape=[9, 8], md=None, rid=2), dict(base, shape=[3, 3], md=None)]
+            yield {"sub": "seq", "steps": [{"op": "call", "d": d, "repeat": i == 1} for i, d in enumerate(seq)], "designed": "alt_prox"}
+
+
 THREAD_CASES = [{"sub": "threads", "fn": "focal_apply", "k": "asym5x3"}, {"sub": "threads", "fn": "convolution_2d", "k": "w3"},
                 {"sub": "threads", "fn": "hotspots", "k": "cross3"}, {"sub": "threads", "fn": "focal_mean", "k": "cross3"},
                 {"sub": "threads", "fn": "proximity", "k": "cross3"}, {"sub": "threads", "fn": "proximity", "k": "cross3", "md": 9.0}]
@@ -493,6 +516,8 @@ def shards(tier):
     mixed = [f for fams in FAMILIES for f in fams]
     for rep in range(2 if tier == "quick" else 3):
         out.append(("seq_mixed#%d" % rep, lambda ctx: drive_hypothesis(ctx, body_seq, sequences(mixed, calls, distinct), nseq, shrink=(tier == "thorough"))))
+    for fn in ("proximity", "allocation", "direction"):
+        out.append(("alt_prox_%s" % fn, lambda ctx, fn=fn: drive_enum(ctx, body_seq, alt_prox_cases(fn), space="designed proximity alternation histories (%s)" % fn, size=4)))
     out.append(("threads#0", lambda ctx: drive_enum(ctx, body_threads, THREAD_CASES[0::2], space="prange kernels x thread counts", size=3)))
     out.append(("threads#1", lambda ctx: drive_enum(ctx, body_threads, THREAD_CASES[1::2], space="prange kernels x thread counts", size=3)))
     return out
